@@ -1608,7 +1608,9 @@ impl Exec {
             }
         }
         // ---- end of walk: C11 coverage
-        if complete && deleted_here > 0 && kind != W_EDNS {
+        // (the empty choice of deletions is a choice too: a walk that ran to the end has to have
+        // yielded every record of its section, whatever earlier operations did to the packet)
+        if complete && kind != W_EDNS {
             for (k, uid) in self.uids[sec].iter().enumerate() {
                 if kind != W_QUESTION {
                     let rec = &self.model.section(sec)[k];
@@ -1629,7 +1631,9 @@ impl Exec {
                     ));
                 }
             }
-            bump(&mut self.stats, "probe:complete_delete_walk");
+            if deleted_here > 0 {
+                bump(&mut self.stats, "probe:complete_delete_walk");
+            }
         }
         if complete {
             bump(&mut self.stats, "probe:walk_ran_to_end");
